@@ -57,6 +57,14 @@ func evalC11(c *engine.Case) engine.Verdict {
 			onceIDs[sc.Convs[i].ID] = true
 		}
 	}
+	if sc.Target.Once {
+		onceIDs[engine.TargetID] = true
+		v.Class("run-once-target")
+		if len(sc.Target.Out) == 0 {
+			v.Class("run-once-target-without-results")
+		}
+	}
+	targetUses := 0
 	argsFor := func(st C11Step) []argmapper.Arg {
 		s2 := *sc
 		s2.Inputs = nil
@@ -114,6 +122,31 @@ func evalC11(c *engine.Case) engine.Verdict {
 			if o.Panic != "" {
 				v.Failf("step %d: panic: %s", si, o.Panic)
 				return false
+			}
+			if sc.Target.Once && o.Err == nil {
+				// every successful use of a run-once target observes the
+				// outputs of its first execution
+				targetUses++
+				var first *engine.Event
+				for i := range evs {
+					if evs[i].Func == engine.TargetID && first == nil {
+						first = &evs[i]
+					}
+				}
+				if first == nil {
+					v.Failf("step %d: a call of the run-once target succeeded but its body never ran", si)
+					return false
+				}
+				if len(o.Outs) != len(first.Outs) {
+					v.Failf("step %d: run-once target returned %d values, its first execution returned %d", si, len(o.Outs), len(first.Outs))
+					return false
+				}
+				for i := range o.Outs {
+					if o.Outs[i].Tok != first.Outs[i] {
+						v.Failf("step %d: run-once target returned #%d, its first execution returned #%d", si, o.Outs[i].Tok, first.Outs[i])
+						return false
+					}
+				}
 			}
 			if fe, ok := o.Err.(*engine.FailErr); ok && onceIDs[fe.Func] {
 				if want := failedErr[fe.Func]; want != nil && o.Err != want {
@@ -197,7 +230,7 @@ func evalC11(c *engine.Case) engine.Verdict {
 		v.Class("once-function-failed")
 	}
 	v.Class(fmt.Sprintf("steps=%d", min(len(x.Steps)/2*2, 8)))
-	v.NonTrivial = executed > 0 && needs >= 2
+	v.NonTrivial = executed > 0 && (needs >= 2 || targetUses >= 2)
 	if v.NonTrivial {
 		v.Class("once-needed>=2")
 	}
@@ -211,8 +244,11 @@ func genC11(g engine.G) *engine.Case {
 	o.FailP = 8
 	pal := engine.GenPalette(g, g.Pct(30), g.Pct(40))
 	b := engine.NewBuilder(g, pal, o)
+	o.MinOut = 0
 	b.Sc.Target = engine.GenTarget(g, pal, 3, o)
 	b.Sc.Target.Built = false
+	o.MinOut = 1
+	b.Opts = o
 	for _, p := range b.Sc.Target.In {
 		b.Produce(p, g.Int(1, 3), 2)
 	}
@@ -220,6 +256,18 @@ func genC11(g engine.G) *engine.Case {
 	for i := range sc.Convs {
 		sc.Convs[i].Built = false
 		sc.Convs[i].Once = false
+	}
+	if g.Pct(30) {
+		// the run-once function is the target itself (results positional so
+		// that returned tokens are comparable; possibly no results at all)
+		sc.Target.Once = true
+		sc.Target.OutForm = engine.FormPos
+		for i := range sc.Target.Out {
+			sc.Target.Out[i].Name, sc.Target.Out[i].Sub, sc.Target.Out[i].Tag = "", "", false
+		}
+		if g.Pct(40) {
+			sc.Target.Out = nil
+		}
 	}
 	// 1-2 run-once converters at random chain positions
 	if len(sc.Convs) > 0 {
